@@ -355,6 +355,11 @@ pub fn drive(d: &mut Driver)
 	}
 	jobs.reverse();
 	d.phase("statement trees", jobs);
+	// slice of larger sizes: else-if chains of two to four conditions (up to 14 statements)
+	let nchains = chain_forests().len();
+	d.bound("else-if chains", json!({"conditions": "2 to 4", "branch forms": CHAIN_BRANCHES.iter().map(|b| b.0).collect::<Vec<_>>(), "final else": "absent or each branch form", "placements": CHAIN_PLACEMENTS, "bodies": nchains}));
+	let jobs: Vec<Value> = (0..nchains).step_by(1500).map(|lo| json!({"chains": true, "lo": lo, "hi": (lo + 1500).min(nchains)})).collect();
+	d.phase("else-if chains of every branch form", jobs);
 	d.assume("model: the placement rules in engine/src/checks/c06.rs (fn model), transcribed from docs/features.md and docs/errors.md E800/E801/E840/L1800");
 	d.assume("what lies inside a branch that is itself rejected with E840 is not required to be reported separately (the compiler does not look inside it)");
 }
@@ -408,8 +413,85 @@ pub fn decode(v: &Value) -> Vec<P>
 	v.as_array().map(|a| a.iter().map(one).collect()).unwrap_or_default()
 }
 
+pub const CHAIN_BRANCHES: [(&str, &str); 8] = [
+	("empty block", "{}"),
+	("block with an assignment", "{ x = 1; }"),
+	("block that starts with loop", "{ loop; }"),
+	("block with an assignment and a loop", "{ x = 1; loop; }"),
+	("goto without braces", "goto end;"),
+	("block with a goto", "{ goto end; }"),
+	("assignment without braces", "x = 1;"),
+	("block in a block with a loop", "{ { loop; } }"),
+];
+pub const CHAIN_PLACEMENTS: [&str; 3] = ["statement of the function body", "last statement of a nested block", "first statement of a block that ends in loop"];
+
+fn chain_branch(k: usize) -> P
+{
+	match k
+	{
+		0 => P::Block(vec![]),
+		1 => P::Block(vec![P::Assign]),
+		2 => P::Block(vec![P::Loop]),
+		3 => P::Block(vec![P::Assign, P::Loop]),
+		4 => P::Goto,
+		5 => P::Block(vec![P::Goto]),
+		6 => P::Assign,
+		_ => P::Block(vec![P::Block(vec![P::Loop])]),
+	}
+}
+
+/// The bodies of the slice "else-if chains": `if c B1 else if c B2 ... [else Bn]` for every choice
+/// of branch forms, in three placements.
+pub fn chain_forests() -> Vec<Vec<P>>
+{
+	let nb = CHAIN_BRANCHES.len();
+	let mut chains: Vec<P> = Vec::new();
+	for conditions in 2..=4usize
+	{
+		// branches: `conditions` then-branches and an optional final else
+		let total = nb.pow(conditions as u32) * (nb + 1);
+		for mut code in 0..total
+		{
+			let last = code % (nb + 1);
+			code /= nb + 1;
+			let mut thens = Vec::new();
+			for _ in 0..conditions
+			{
+				thens.push(code % nb);
+				code /= nb;
+			}
+			// in the largest size only chains whose first two branches differ in kind are kept apart
+			// from the quick slice by the caller; here: everything
+			let mut tail: Option<Box<P>> = if last == nb { None } else { Some(Box::new(chain_branch(last))) };
+			for t in thens.iter().rev()
+			{
+				tail = Some(Box::new(P::If(Box::new(chain_branch(*t)), tail)));
+			}
+			chains.push(*tail.unwrap());
+		}
+	}
+	let mut out = Vec::new();
+	for c in chains
+	{
+		out.push(vec![c.clone()]);
+		out.push(vec![P::Block(vec![P::Assign, c.clone()])]);
+		out.push(vec![P::Block(vec![c, P::Loop])]);
+	}
+	out
+}
+
 pub fn work(spec: &Value, w: &mut WorkerCtx)
 {
+	if spec.get("chains").is_some()
+	{
+		let all = chain_forests();
+		for forest in &all[spec["lo"].as_u64().unwrap() as usize..spec["hi"].as_u64().unwrap() as usize]
+		{
+			w.result.transitions += 1;
+			judge(forest, w);
+		}
+		return;
+	}
 	if let Some(case) = spec.get("replay")
 	{
 		let forest = decode(&case["forest"]);
